@@ -3,6 +3,7 @@ package c09
 
 import (
 	"context"
+	"database/sql/driver"
 	"encoding/json"
 	"errors"
 	"fmt"
@@ -26,6 +27,9 @@ type c09Fault struct {
 	// Scan: in this attempt the text of the Scan-th file (1-based, name order) cannot be scanned (an
 	// unclosed quote after its statements; the directory is re-hashed); later attempts see the good file.
 	Scan int `json:"scan,omitempty"`
+	// BadConn: the failing ExecContext (Exec) returns an error that wraps driver.ErrBadConn (a lost
+	// connection) instead of a plain error. The statement did not run; the attempt must stop all the same.
+	BadConn bool `json:"badconn,omitempty"`
 }
 
 type c09Case struct {
@@ -121,6 +125,10 @@ func c09Run(cs c09Case) (why, key string, trace []string) {
 	for ai, f := range attempts {
 		w.ExecN, w.WriteN, w.FailExec, w.FailWrite = 0, 0, f.Exec, f.Write
 		w.ReadN, w.FailRead = 0, f.Read
+		w.FailExecErr = nil
+		if f.BadConn {
+			w.FailExecErr = fmt.Errorf("exec: connection lost: %w", driver.ErrBadConn)
+		}
 		dir := dir
 		if f.Scan > 0 {
 			dir = c09BadDir(dir, f.Scan)
@@ -377,6 +385,16 @@ func runC09(c *rt.Ctx) {
 			for _, f1 := range fs[1:] {
 				cases = append(cases, c09Case{Shape: sh, Faults: []c09Fault{f1, {Scan: fi}}}, c09Case{Shape: sh, Faults: []c09Fault{{Scan: fi}, f1}})
 			}
+		}
+	}
+	for _, sh := range [][]int{{2}, {1, 2}, {2, 2}} {
+		n := 0
+		for _, x := range sh {
+			n += x
+		}
+		for k := 1; k <= n; k++ {
+			cases = append(cases, c09Case{Shape: sh, Faults: []c09Fault{{Exec: k, BadConn: true}}})
+			cases = append(cases, c09Case{Shape: sh, Faults: []c09Fault{{Exec: k, BadConn: true}, {Exec: 1, BadConn: true}}})
 		}
 	}
 	big := []int{70}
